@@ -88,21 +88,25 @@ Proof.
   constructor; [lia|]. eapply Forall_impl; [|exact IH]. intros a Ha. cbn beta in Ha. lia.
 Qed.
 
-(* what the writers need of a decoded glyph *)
+(* what the writers need of a decoded glyph: beyond what the WOFF2 encoding can carry, a simple
+   glyph must have int16 deltas between consecutive points (the deltas a TrueType glyf table can
+   store; SimpleGlyph::write refuses anything else) *)
+Definition glyph_deltas_ok (g : glyph) : Prop :=
+  match g with GSimple s => deltas_ok 0 0 (sg_points s) | _ => True end.
 Definition glyph_tt_ok (g : glyph) : Prop :=
   match g with
   | GEmpty => True
-  | GSimple s => simple_ok Debug s
+  | GSimple s => simple_ok s /\ deltas_ok 0 0 (sg_points s)
   | GComposite bb cs ins =>
       components_ok cs /\ bbox_ok bb /\ len ins < 65536 /\ (have_instructions cs = false -> ins = [])
   | GPresent _ _ => False
   end.
 
-Lemma encoded_glyph_tt_ok : forall g c, encodes_glyph Debug g c -> glyph_tt_ok g.
+Lemma encoded_glyph_tt_ok : forall g c, encodes_glyph g c -> glyph_deltas_ok g -> glyph_tt_ok g.
 Proof.
-  intros g c H. destruct H as [|g np fl gl il ex Hok _ _ _ _|bb cs ins il Hcs Hbb _ Hl Hi]; cbn [glyph_tt_ok].
+  intros g c H Hd. destruct H as [|g np fl gl il ex Hok _ _ _ _|bb cs ins il Hcs Hbb _ Hl Hi]; cbn [glyph_tt_ok].
   - exact I.
-  - exact Hok.
+  - split; [exact Hok|exact Hd].
   - split; [exact Hcs|split; [exact Hbb|split; [exact Hl|]]]. intros Hf. rewrite Hf in Hi. apply Hi.
 Qed.
 
@@ -119,8 +123,8 @@ Proof.
   intros m g bytes pad Hok Hw Hne. destruct g as [|s|bb cs ins|nc raw]; [congruence| | |destruct Hok].
   - (* simple *)
     cbn [glyph_tt_ok] in Hok.
-    destruct Hok as (Hnz & Hinc & Hlast & Hnp & Hncl & Hpts & Hdel & Hil & Hib & Hbb).
-    destruct (deltas_split _ _ _ (Hdel eq_refl)) as [Hdx Hdy].
+    destruct Hok as ((Hnz & Hinc & Hlast & Hnp & Hncl & Hpts & Hil & Hib & Hbb) & Hdel).
+    destruct (deltas_split _ _ _ Hdel) as [Hdx Hdy].
     cbn [write_glyph] in Hw.
     destruct (write_deltas m (map p_x (sg_points s)) 0) as [xs| | |] eqn:Ex; cbn [bind] in Hw; try discriminate.
     destruct (write_deltas m (map p_y (sg_points s)) 0) as [ys| | |] eqn:Ey; cbn [bind] in Hw; try discriminate.
@@ -294,8 +298,8 @@ Qed.
 Lemma write_glyph_total : forall m g, glyph_tt_ok g -> exists b, write_glyph m g = Ok b.
 Proof.
   intros m g H. destruct g as [|s|bb cs ins|nc raw]; cbn [write_glyph]; try (eexists; reflexivity).
-  destruct H as (_ & _ & _ & _ & _ & _ & Hdel & _).
-    destruct (deltas_split _ _ _ (Hdel eq_refl)) as [Hdx Hdy].
+  destruct H as (_ & Hdel).
+    destruct (deltas_split _ _ _ Hdel) as [Hdx Hdy].
     rewrite (write_deltas_ok m _ 0 Hdx), (write_deltas_ok m _ 0 Hdy). cbn [bind]. eexists; reflexivity.
 Qed.
 
@@ -352,20 +356,6 @@ Proof.
 Qed.
 
 (* ------------------------------------------------------------------ end to end *)
-Lemma encodes_glyph_mono : forall m g c, encodes_glyph Debug g c -> encodes_glyph m g c.
-Proof.
-  intros m g c H. destruct H as [|g np fl gl il ex Hok Hnp Hpts Hil Hbb|bb cs ins il Hcs Hbb Hib Hl Hi].
-  - apply EG_empty.
-  - apply EG_simple; try assumption.
-    destruct Hok as (H1 & H2 & H3 & H4 & H5 & H6 & H7 & H8). repeat split; try assumption; try apply H8.
-    intros _. apply H7. reflexivity.
-  - apply EG_composite; assumption.
-Qed.
-
-Lemma Forall2_impl_l {A B} (R R' : A -> B -> Prop) l l' :
-  (forall a b, R a b -> R' a b) -> Forall2 R l l' -> Forall2 R' l l'.
-Proof. intros H HF. induction HF; constructor; auto. Qed.
-
 (* WOFF2 decoding of a TrueType font stored with the glyf, loca and hmtx transforms, end to end:
    the provider returns an hmtx table that is the plain serialisation of the original metrics h,
    glyf and loca tables through which the TrueType reader finds exactly the original glyphs gs
@@ -376,7 +366,8 @@ Proof. intros H HF. induction HF; constructor; auto. Qed.
 Theorem transformed_font_roundtrip :
   forall m ts flavor index gs h flags gt lt ht hdt mt hht head long,
   Forall tabspec_ok ts -> NoDup (map t_tag ts) ->
-  In gt ts -> t_tag gt = tag_glyf -> t_transformed gt = true -> encodes_glyf_table Debug gs (t_data gt) ->
+  In gt ts -> t_tag gt = tag_glyf -> t_transformed gt = true -> encodes_glyf_table gs (t_data gt) ->
+  Forall glyph_deltas_ok gs ->
   In lt ts -> t_tag lt = tag_loca -> t_transformed lt = true ->
   In ht ts -> t_tag ht = tag_hmtx -> t_transformed ht = true ->
   encodes_hmtx_flags flags gs h (t_data ht) -> Z.land flags 2 = 0 -> hmtx_ok gs h ->
@@ -392,14 +383,12 @@ Theorem transformed_font_roundtrip :
      exists offs, read_loca L (len gs) long' = Ok offs /\ tt_read_glyf G offs = Ok gs).
 Proof.
   intros m ts flavor index gs h flags gt lt ht hdt mt hht head long Hok Hnd
-         Hgt Egt Tgt Hglyf Hlt Elt Tlt Hht Eht Tht Hhmtx Hbit Hhok Hhd Ehd Thd Rhd Hmt Emt Tmt Rmt Hhh Ehh Thh Rhh.
+         Hgt Egt Tgt Hglyf Hdel Hlt Elt Tlt Hht Eht Tht Hhmtx Hbit Hhok Hhd Ehd Thd Rhd Hmt Emt Tmt Rmt Hhh Ehh Thh Rhh.
   pose proof Hglyf as (cs & bm & ifmt & oflags & Hcs & Hrest).
   assert (Forall glyph_tt_ok gs) as Htt.
-  { clear - Hcs. induction Hcs as [|g c gs cs Hg _ IH]; constructor; [|exact IH].
-    apply (encoded_glyph_tt_ok g c Hg). }
-  assert (encodes_glyf_table m gs (t_data gt)) as Hglyf'.
-  { exists cs, bm, ifmt, oflags. split; [|exact Hrest].
-    apply (Forall2_impl_l (encodes_glyph Debug) (encodes_glyph m)); [apply encodes_glyph_mono|exact Hcs]. }
+  { clear - Hcs Hdel. induction Hcs as [|g c gs cs Hg _ IH]; [constructor|].
+    inversion Hdel as [|? ? Hd Hdel']; subst. constructor; [|exact (IH Hdel')].
+    apply (encoded_glyph_tt_ok g c Hg Hd). }
   destruct (write_glyf_total m (negb long) gs 0 Htt) as (G & offs & Wg).
   destruct (write_glyf_offsets m (negb long) gs 0 G offs ltac:(lia) Wg) as (Hlen & Hf & Hlast).
   set (long' := long || (65535 <? last offs 0 / 2)).
